@@ -14,6 +14,7 @@ TInit == /\ tid \in 1..Len(Traces) /\ l = 1
 \* item tokens of the log are positional: Tok(h, position in history) as the spec assigns them
 Act(e) == CASE e.op = "new" -> NewHolder(e.h, e.cap) [] e.op = "add" -> Add(e.h) [] e.op = "get" -> Get(e.h, e.i)
             [] e.op = "save" -> Save(e.h, e.p) [] e.op = "load" -> Load(e.p, e.h) [] e.op = "concat" -> Concat(e.a, e.b)
+            [] e.op = "retable" -> Retable
 ProjH(hd) == [cap |-> hd.cap, items |-> hd.items]
 TStep == /\ T.kind = "ops" /\ l <= Len(T.events)
          /\ Act(Ev)
